@@ -171,4 +171,24 @@ def splitPayload (bs : List Nat) : Option (List Nat × List Nat × List Nat) :=
 def specPayloadBytes (d t p : List Nat) (bytes : List Nat) : Bool :=
   splitPayload bytes == some (d, t, p)
 
+
+/-! ## structure-aware signature mutations -/
+
+/-- the real schemes as they are: ECDSA over P-256 (`p256` crate: FIPS 186 verification, no low-S
+rule) accepts the algebraic twin `(r, n − s)` of a valid signature; `k256` (secp256k1) enforces
+low-S, ed25519-dalek and ring's RSA PKCS#1 accept no other encoding of a signature. -/
+def malleable (scheme variant : String) : Bool := scheme == "ecdsa" && variant == "high_s"
+
+/-- a signature that was re-encoded or algebraically transformed is presented for the message that
+was signed: it verifies iff it is byte-for-byte the original — or the scheme is malleable in that
+way; the envelope / peer record carrying it is accepted iff so.  (verify, envelope ok, record ok) -/
+def sigstructModel (scheme variant : String) (changed : Bool) : Bool × Bool × Bool :=
+  let a := !changed || malleable scheme variant
+  (a, a, a)
+
+/-- the property clause "any change to the signature makes verification fail" on one observation:
+(verify, envelope accepted, record accepted) -/
+def specSigstruct (changed : Bool) (verify envOk recOk : Bool) : Bool :=
+  if changed then !verify && !envOk && !recOk else verify && envOk && recOk
+
 end C21
